@@ -6,11 +6,13 @@ import (
 	"context"
 	"encoding/json"
 	"fmt"
+	"reflect"
 	"strconv"
 	"sync"
 	"sync/atomic"
 	"testing"
 	"time"
+	"unsafe"
 
 	"github.com/alicebob/miniredis/v2"
 	"github.com/alicebob/miniredis/v2/server"
@@ -68,6 +70,7 @@ type verifServer struct {
 	hang    chan struct{} // non-nil: every command is parked on it and then dropped (never answered)
 	slow    chan struct{} // non-nil: EVAL/EVALSHA are parked on it and then dropped
 	healMax time.Duration
+	pending bool // a request ran since the monitors were last given time (fallback of verifHeal)
 }
 
 func (v *verifServer) apply() {
@@ -209,17 +212,19 @@ func verifEntry(s *miniredis.Miniredis, key string) []int64 {
 func verifPeriod(v *verifServer, c verifCase) any {
 	prefix := fmt.Sprintf("p%d:", v.caseSeq)
 	lims := make([]*PeriodLimit, len(c.Lims))
+	pfx := make([]string, len(c.Lims)) // the key prefix handed to each limiter (not read back from it)
 	for i, l := range c.Lims {
 		var opts []PeriodOption
 		if l.Align {
 			opts = append(opts, Align())
 		}
 		// every limiter has its own store wrapper (own breaker), like separate processes
-		lims[i] = NewPeriodLimit(l.Period, l.Quota, redis.New(v.addr), prefix+strconv.Itoa(l.Pfx)+":", opts...)
+		pfx[i] = prefix + strconv.Itoa(l.Pfx) + ":"
+		lims[i] = NewPeriodLimit(l.Period, l.Quota, redis.New(v.addr), pfx[i], opts...)
 	}
 	clock := c.T0
 	if c.Clk == "real" {
-		// the callers of the period limiter live on the wall clock (calcExpireSeconds); the server's
+		// the callers of the period limiter live on the wall clock (aligned windows); the server's
 		// clock is that clock plus a constant skew, stepped by the history
 		clock = time.Now().UnixMilli() + c.Skew*1000
 	}
@@ -241,11 +246,13 @@ func verifPeriod(v *verifServer, c verifCase) any {
 			if op.Down {
 				v.set(false, false, false)
 			}
+			// the wall clock around the call: the window length the limiter asks for is a function
+			// of period/align and this clock, computed outside (only exported API is used here)
 			now := time.Now()
 			_, off := now.Zone()
-			u0, e0 := now.Unix(), pl.calcExpireSeconds()
+			u0 := now.Unix()
 			code, err := pl.Take(key)
-			e1, u1 := pl.calcExpireSeconds(), time.Now().Unix()
+			u1 := time.Now().Unix()
 			if op.Down {
 				v.set(true, true, false)
 			}
@@ -255,12 +262,14 @@ func verifPeriod(v *verifServer, c verifCase) any {
 			} else if err != nil {
 				ec = 1
 			}
-			out = append(out, map[string]any{"code": code, "err": ec, "ent": verifEntry(v.s, pl.keyPrefix+key),
-				"exp": []int64{u0, int64(off), int64(e0), u1, int64(e1)}})
+			out = append(out, map[string]any{"code": code, "err": ec, "ent": verifEntry(v.s, pfx[op.Lim]+key),
+				"exp": []int64{u0, int64(off), 0, u1, 0}})
 		case "conc":
 			pl := lims[op.Lim]
 			key := "k" + strconv.Itoa(op.Key)
-			e0 := pl.calcExpireSeconds()
+			now := time.Now()
+			_, off := now.Zone()
+			u0 := now.Unix()
 			var wg sync.WaitGroup
 			var counts [4]int64
 			var errs int64
@@ -280,9 +289,9 @@ func verifPeriod(v *verifServer, c verifCase) any {
 			}
 			close(start)
 			wg.Wait()
-			e1 := pl.calcExpireSeconds()
-			out = append(out, map[string]any{"codes": counts[:], "errs": errs, "ent": verifEntry(v.s, pl.keyPrefix+key),
-				"exp": []int64{0, 0, int64(e0), 0, int64(e1)}})
+			u1 := time.Now().Unix()
+			out = append(out, map[string]any{"codes": counts[:], "errs": errs, "ent": verifEntry(v.s, pfx[op.Lim]+key),
+				"exp": []int64{u0, int64(off), 0, u1, 0}})
 		default:
 			out = append(out, map[string]any{"bad_op": op.Op})
 		}
@@ -290,20 +299,60 @@ func verifPeriod(v *verifServer, c verifCase) any {
 	return map[string]any{"ops": out}
 }
 
-func verifHeal(v *verifServer, tl *TokenLimiter) bool {
+// verifProbe reads the limiter's switch state (redisAlive, monitorStarted under rescueLock) by field
+// NAME through reflection, so that the driver keeps compiling and running when the limiter's
+// unexported parts are renamed or retyped; known = false then, and the driver falls back to waiting
+// a fixed time for the monitor and reports the switch state as not observable.
+type verifProbe struct {
+	alive *uint32
+	mon   *bool
+	mu    *sync.Mutex
+}
+
+func verifProbeOf(tl *TokenLimiter) *verifProbe {
+	rv := reflect.ValueOf(tl).Elem()
+	p := &verifProbe{}
+	if f := rv.FieldByName("redisAlive"); f.IsValid() && f.Kind() == reflect.Uint32 && f.CanAddr() {
+		p.alive = (*uint32)(unsafe.Pointer(f.UnsafeAddr()))
+	}
+	if f := rv.FieldByName("monitorStarted"); f.IsValid() && f.Kind() == reflect.Bool && f.CanAddr() {
+		p.mon = (*bool)(unsafe.Pointer(f.UnsafeAddr()))
+	}
+	if f := rv.FieldByName("rescueLock"); f.IsValid() && f.Type() == reflect.TypeOf(sync.Mutex{}) && f.CanAddr() {
+		p.mu = (*sync.Mutex)(unsafe.Pointer(f.UnsafeAddr()))
+	}
+	if p.alive == nil || p.mon == nil || p.mu == nil {
+		return nil
+	}
+	return p
+}
+
+func (p *verifProbe) state() (alive uint32, started bool) {
+	p.mu.Lock()
+	started = *p.mon
+	p.mu.Unlock()
+	return atomic.LoadUint32(p.alive), started
+}
+
+func verifHeal(v *verifServer, p *verifProbe) bool {
 	// the monitor goroutine pings every pingInterval of real time; wait for it only when it can succeed
-	tl.rescueLock.Lock()
-	started := tl.monitorStarted
-	tl.rescueLock.Unlock()
-	if !started || !v.pingUp || v.closed || v.stuck {
+	if !v.pingUp || v.closed || v.stuck {
+		return true
+	}
+	if p == nil {
+		// switch state not observable: give a monitor that may be running the time of three ticker
+		// rounds (plus the time a ping caught by a hang needs to give up)
+		if v.pending {
+			time.Sleep(350*time.Millisecond + v.healMax/4)
+		}
+		return true
+	}
+	if _, started := p.state(); !started {
 		return true
 	}
 	deadline := time.Now().Add(3*time.Second + v.healMax)
 	for time.Now().Before(deadline) {
-		tl.rescueLock.Lock()
-		started = tl.monitorStarted
-		tl.rescueLock.Unlock()
-		if !started && atomic.LoadUint32(&tl.redisAlive) == 1 {
+		if alive, started := p.state(); !started && alive == 1 {
 			return true
 		}
 		time.Sleep(2 * time.Millisecond)
@@ -338,27 +387,39 @@ func verifToken(v *verifServer, c verifCase) any {
 			return map[string]any{"new_panic": val}
 		}
 	}
+	probes := make([]*verifProbe, insts)
+	known := true
+	for i, tl := range tls {
+		if probes[i] = verifProbeOf(tl); probes[i] == nil {
+			known = false
+		}
+	}
+	// the two bucket keys as the property names them ({key}.tokens / {key}.ts); not read back from the limiter
+	tokenKey, timestampKey := "{"+name+"}.tokens", "{"+name+"}.ts"
 	clock := c.T0
 	v.s.SetTime(time.UnixMilli(clock))
 	out := make([]map[string]any, 0, len(c.Ops))
 	healed := true
+	v.pending = false
 	snap := func(m map[string]any) map[string]any {
 		alive, mon := make([]uint32, 2), make([]bool, 2)
 		alive[1] = 1 // an absent second instance reads as a healthy idle one
-		for i, tl := range tls {
-			if !verifHeal(v, tl) {
+		for i := range tls {
+			if !verifHeal(v, probes[i]) {
 				healed = false
 			}
-			tl.rescueLock.Lock()
-			mon[i] = tl.monitorStarted
-			tl.rescueLock.Unlock()
-			alive[i] = atomic.LoadUint32(&tl.redisAlive)
+			if probes[i] != nil {
+				alive[i], mon[i] = probes[i].state()
+			}
 		}
-		m["alive"], m["mon"] = alive, mon
+		if v.pingUp && !v.closed {
+			v.pending = false
+		}
+		m["alive"], m["mon"], m["known"] = alive, mon, known
 		if v.closed {
 			m["tok"], m["ts"] = []int64{-1, 0, 0}, []int64{-1, 0, 0}
 		} else {
-			m["tok"], m["ts"] = verifEntry(v.s, tls[0].tokenKey), verifEntry(v.s, tls[0].timestampKey)
+			m["tok"], m["ts"] = verifEntry(v.s, tokenKey), verifEntry(v.s, timestampKey)
 		}
 		return m
 	}
@@ -377,6 +438,9 @@ func verifToken(v *verifServer, c verifCase) any {
 		if (op.Op == "allow" || op.Op == "conc") && (op.Inst < 0 || op.Inst >= insts) {
 			out = append(out, map[string]any{"bad_op": "inst"})
 			continue
+		}
+		if (op.Op == "allow" || op.Op == "conc") && (!v.evalUp || v.hang != nil || v.closed || 2*c.Burst < c.Rate) {
+			v.pending = true // the call may have started a monitor (only used when the switch state is not observable)
 		}
 		switch op.Op {
 		case "tick":
@@ -449,12 +513,12 @@ func verifToken(v *verifServer, c verifCase) any {
 	}
 	// leave no monitor goroutine behind
 	v.set(true, true, false)
-	for _, tl := range tls {
-		if !verifHeal(v, tl) {
+	for i := range tls {
+		if !verifHeal(v, probes[i]) {
 			healed = false
 		}
 	}
-	return map[string]any{"ops": out, "healed": healed, "tokfmt": tls[0].tokenKey, "tsfmt": tls[0].timestampKey}
+	return map[string]any{"ops": out, "healed": healed, "known": known}
 }
 
 // TestVerifDriver replays period/token limiter histories against miniredis with a steered server
